@@ -79,8 +79,8 @@ inductive SpSt (τ : Type) where
 namespace SPOnK
 variable {τ : Type} [Num τ]
 
-def tokStore : ResId := 0
-def flowStore (f : Nat) : ResId := 1 + f
+def tokStore : Nat := 0
+def flowStore (f : Nat) : Nat := 1 + f
 def cRecv : Nat := 0
 def cCur : Nat := 1
 def cCount (f : Nat) : Nat := 10 + 3 * f
